@@ -140,3 +140,118 @@ Qed.
 (* sanity: the standard check value of CRC-32 for "123456789" is 0xCBF43926 *)
 Example crc_check : crc32 [49;50;51;52;53;54;55;56;57] = 3421780262.
 Proof. vm_compute. reflexivity. Qed.
+
+(* ---- bursts: any change confined to four consecutive bytes (a 32-bit burst on byte boundaries) is detected ---- *)
+Lemma bstep_double y : bstep (2 * y) = y.
+Proof.
+  unfold bstep. rewrite N.testbit_even_0. rewrite N.lxor_0_r.
+  rewrite N.shiftr_div_pow2. change (2 ^ 1) with 2. rewrite N.mul_comm. apply N.div_mul. discriminate.
+Qed.
+
+Lemma iter8_shl v : iter 8 (256 * v) = v.
+Proof.
+  replace (256 * v) with (2 * (2 * (2 * (2 * (2 * (2 * (2 * (2 * v)))))))) by lia.
+  cbn [iter]. rewrite !bstep_double. reflexivity.
+Qed.
+
+Lemma lxor_disjoint8 a b : a < 256 -> N.lxor a (256 * b) = a + 256 * b.
+Proof.
+  intros Ha. symmetry. apply N.add_nocarry_lxor.
+  apply N.bits_inj. intro n. rewrite N.land_spec, N.bits_0.
+  destruct (N.ltb_spec n 8) as [Hn|Hn].
+  - replace (256 * b) with (b * 2 ^ 8) by (change (2 ^ 8) with 256; lia).
+    rewrite (N.mul_pow2_bits_low b 8 n Hn). apply andb_false_r.
+  - rewrite <- (N.mod_small a (2 ^ 8)) by (change (2 ^ 8) with 256; exact Ha).
+    rewrite N.mod_pow2_bits_high by exact Hn. reflexivity.
+Qed.
+
+(* the register difference after absorbing four bytes from equal registers *)
+Definition pack4 (e1 e2 e3 e4 : N) : N := e1 + 256 * (e2 + 256 * (e3 + 256 * e4)).
+
+Lemma byte_step_xor s t x y : byte_step (N.lxor s t) (N.lxor x y) = N.lxor (byte_step s x) (byte_step t y).
+Proof.
+  unfold byte_step. rewrite <- iter_linear. f_equal.
+  apply N.bits_inj. intro n. rewrite !N.lxor_spec.
+  destruct (N.testbit s n), (N.testbit t n), (N.testbit x n), (N.testbit y n); reflexivity.
+Qed.
+
+Lemma iter_add a : forall b s, iter (a + b) s = iter b (iter a s).
+Proof. induction a as [|a IH]; intros b s; cbn [Nat.add iter]; [reflexivity|]. apply IH. Qed.
+
+Lemma iter8_absorb u p : iter 8 (N.lxor u (256 * p)) = N.lxor (iter 8 u) p.
+Proof. rewrite iter_linear, iter8_shl. reflexivity. Qed.
+
+Lemma iter32_split z : iter 32 z = iter 8 (iter 8 (iter 8 (iter 8 z))).
+Proof. change 32%nat with (8 + (8 + (8 + 8)))%nat. rewrite !iter_add. reflexivity. Qed.
+
+Lemma window4_zero e1 e2 e3 e4 : e1 < 256 -> e2 < 256 -> e3 < 256 ->
+  crc_raw 0 [e1; e2; e3; e4] = iter 32 (pack4 e1 e2 e3 e4).
+Proof.
+  intros H1 H2 H3. unfold pack4.
+  rewrite <- (lxor_disjoint8 e3 e4 H3).
+  rewrite <- (lxor_disjoint8 e2 _ H2).
+  rewrite <- (lxor_disjoint8 e1 _ H1).
+  rewrite iter32_split.
+  rewrite iter8_absorb. rewrite <- N.lxor_assoc.
+  rewrite iter8_absorb. rewrite <- N.lxor_assoc.
+  rewrite iter8_absorb.
+  unfold crc_raw. cbn [fold_left]. unfold byte_step. rewrite N.lxor_0_l. reflexivity.
+Qed.
+
+Lemma crc_raw_xor : forall xs ys s t, length xs = length ys ->
+  N.lxor (crc_raw s xs) (crc_raw t ys) = crc_raw (N.lxor s t) (map (fun p => N.lxor (fst p) (snd p)) (combine xs ys)).
+Proof.
+  induction xs as [|x xs IH]; intros [|y ys] s t L; cbn in L; try discriminate.
+  - reflexivity.
+  - unfold crc_raw in *. cbn [fold_left combine map fst snd]. rewrite IH by lia. rewrite byte_step_xor. reflexivity.
+Qed.
+
+Lemma window4_diff s x1 x2 x3 x4 y1 y2 y3 y4 :
+  N.lxor x1 y1 < 256 -> N.lxor x2 y2 < 256 -> N.lxor x3 y3 < 256 ->
+  N.lxor (crc_raw s [x1; x2; x3; x4]) (crc_raw s [y1; y2; y3; y4]) =
+  iter 32 (pack4 (N.lxor x1 y1) (N.lxor x2 y2) (N.lxor x3 y3) (N.lxor x4 y4)).
+Proof.
+  intros H1 H2 H3. rewrite crc_raw_xor by reflexivity. rewrite N.lxor_nilpotent.
+  cbn [combine map fst snd]. apply window4_zero; assumption.
+Qed.
+
+Lemma lxor_byte a b : a < 256 -> b < 256 -> N.lxor a b < 256.
+Proof.
+  intros Ha Hb. destruct (N.eq_dec (N.lxor a b) 0) as [->|Hn]; [lia|].
+  apply N.log2_lt_pow2 with (b := 8); [lia|].
+  eapply N.le_lt_trans; [apply N.log2_lxor|].
+  apply N.max_lub_lt.
+  - destruct (N.eq_dec a 0) as [->|]; [reflexivity|]. apply N.log2_lt_pow2; lia.
+  - destruct (N.eq_dec b 0) as [->|]; [reflexivity|]. apply N.log2_lt_pow2; lia.
+Qed.
+
+Lemma crc_raw_app s a b : crc_raw s (a ++ b) = crc_raw (crc_raw s a) b.
+Proof. unfold crc_raw. apply fold_left_app. Qed.
+
+Theorem crc32_burst4 pre post x1 x2 x3 x4 y1 y2 y3 y4 :
+  Forall (fun b => b < 256) pre -> Forall (fun b => b < 256) post ->
+  Forall (fun b => b < 256) [x1; x2; x3; x4] -> Forall (fun b => b < 256) [y1; y2; y3; y4] ->
+  [x1; x2; x3; x4] <> [y1; y2; y3; y4] ->
+  crc32 (pre ++ [x1; x2; x3; x4] ++ post) <> crc32 (pre ++ [y1; y2; y3; y4] ++ post).
+Proof.
+  intros Hpre Hpost Hx Hy Hne. unfold crc32.
+  rewrite !crc_raw_app.
+  set (s := crc_raw 4294967295 pre).
+  assert (Hs : s < 4294967296) by (apply crc_raw_bound; [reflexivity|assumption]).
+  intro E. apply lxor_cancel_r in E. revert E.
+  apply crc_raw_diff; [apply crc_raw_bound; assumption|apply crc_raw_bound; assumption|assumption|].
+  intro E.
+  inversion Hx as [|? ? X1 Hx1]; inversion Hx1 as [|? ? X2 Hx2]; inversion Hx2 as [|? ? X3 Hx3]; inversion Hx3 as [|? ? X4 _]; subst.
+  inversion Hy as [|? ? Y1 Hy1]; inversion Hy1 as [|? ? Y2 Hy2]; inversion Hy2 as [|? ? Y3 Hy3]; inversion Hy3 as [|? ? Y4 _]; subst.
+  pose proof (lxor_byte _ _ X1 Y1) as B1. pose proof (lxor_byte _ _ X2 Y2) as B2.
+  pose proof (lxor_byte _ _ X3 Y3) as B3. pose proof (lxor_byte _ _ X4 Y4) as B4.
+  assert (D : iter 32 (pack4 (N.lxor x1 y1) (N.lxor x2 y2) (N.lxor x3 y3) (N.lxor x4 y4)) = 0).
+  { rewrite <- (window4_diff s) by assumption. rewrite E. apply N.lxor_nilpotent. }
+  set (e1 := N.lxor x1 y1) in *. set (e2 := N.lxor x2 y2) in *. set (e3 := N.lxor x3 y3) in *. set (e4 := N.lxor x4 y4) in *.
+  apply iter_kernel in D.
+  - unfold pack4 in D.
+    assert (e1 = 0 /\ e2 = 0 /\ e3 = 0 /\ e4 = 0) as (E1 & E2 & E3 & E4) by lia.
+    unfold e1 in E1. unfold e2 in E2. unfold e3 in E3. unfold e4 in E4.
+    apply N.lxor_eq in E1, E2, E3, E4. subst. apply Hne. reflexivity.
+  - unfold pack4. lia.
+Qed.
